@@ -261,7 +261,8 @@ def plan_for(prop, tier, seed):
     T = tier == "thorough"
     run_fams = [fam("runs_exh", shards=12 if T else 6, sample=8 if T else 24), fam("runs_rand", shards=4)]
     stream_fams = [fam("stream_exh", shards=8 if T else 4, sample=4), fam("stream_rand", shards=3)]
-    builder_fams = [fam("builder_exh", shards=10 if T else 6, sample=1 if T else 6), fam("builder_rand", shards=3)]
+    builder_fams = [fam("builder_exh", shards=10 if T else 6, sample=1 if T else 6), fam("builder_rand", shards=3),
+                    fam("builder_big", shards=4)]
     P = dict(design=[], scenarios=[], families=[], report={prop}, nontrivial_keys=[], rule="", exhaustive=T)
     if prop == "C01":
         P["design"] = run_sweep(tier, lambda k: k["api"] in ("for_each", "try_for_each")) + stream_sweep(tier)[:3] + builder_sweep(tier)[:1]
@@ -354,7 +355,7 @@ def plan_for(prop, tier, seed):
         P["rule"] = "histories of 2-3 runs on one graph value; non-trivial = runs re-executed alone on a freshly built graph and compared event by event"
     elif prop == "C16":
         P["design"] = calls_sweep(tier)
-        P["families"] = [fam("builder_calls", shards=6, sample=1 if T else 2), fam("builder_rand", shards=2)]
+        P["families"] = [fam("builder_calls", shards=6, sample=1 if T else 2), fam("builder_rand", shards=2), fam("builder_big", shards=3)]
         P["nontrivial_keys"] = ["edge_call", "edges_call"]
         P["rule"] = "non-trivial = builder edge calls recorded (results compared by TLC with Build!ApplyEdge)"
     elif prop == "C17":
@@ -364,7 +365,7 @@ def plan_for(prop, tier, seed):
         P["rule"] = "non-trivial = GraphInfo values recorded (from_graph, serde_json round trip, iter / iter_rev)"
     elif prop == "C18":
         P["design"] = builder_sweep(tier)
-        P["families"] = [fam("dense", shards=1), fam("builder_rand", shards=3)]
+        P["families"] = [fam("dense", shards=2), fam("builder_rand", shards=3), fam("builder_big", shards=3)]
         P["nontrivial_keys"] = ["build_user_edges"]
         P["rule"] = "non-trivial = builds of graphs with edges; the hook counter of rank-queue pops is compared with n*n+n"
     elif prop == "C20":
